@@ -47,6 +47,7 @@ use std::borrow::Cow;
 use std::collections::HashMap;
 
 mod conn;
+mod sessglue;
 
 const MAX_LEN: usize = 1 << 25;
 
@@ -1152,6 +1153,9 @@ pub fn run(case: &str, ctx: &mut Ctx) -> String {
             _ => "bad-case".into(),
         };
     }
+    if !w.is_empty() && w[0] == "glue" {
+        return sessglue::run(case, ctx);
+    }
     if !w.is_empty() && w[0] == "sess" {
         return conn::run(case, ctx);
     }
@@ -1589,6 +1593,7 @@ pub fn generate(rng: &mut Rng, tier: Tier, emit: &mut dyn FnMut(String)) {
 
     // (5a) connection-level glue: statement configuration -> frames of a real Connection (see c09/conn.rs)
     conn::generate(rng, tier, emit);
+    sessglue::generate(rng, tier, emit);
     // (5b) frame::decompress on arbitrary bodies (declared sizes around the guards, truncated prefixes, garbage)
     gen_decomp(rng, scale, emit);
     // highly compressible request bodies: the real codecs closest to the decompress guards
